@@ -89,7 +89,7 @@ TRan ==
         /\ Len(finished) = Len(plan.status)
         /\ {[c |-> finished[i].c, s |-> finished[i].s] : i \in 1..Len(finished)} = SeqToSet(plan.status)
         /\ \A c \in SeqToSet(plan.ran) :
-             \A u \in (UNION {Producers(x) : x \in SeqToSet(Cmd(c).ins)}) \cap SeqToSet(plan.ran) :
+             \A u \in (UNION {Producers(x) : x \in SeqToSet(Cmd(c).ins) \cup UNION {SeqToSet(Msa(y)) : y \in SeqToSet(Cmd(c).ins)}}) \cap SeqToSet(plan.ran) :
                 \E j \in 1..Len(ev.seq) : ev.seq[j].c = u /\ ev.seq[j].ev = "F" /\ j < StartedAt(ev.seq, c)
   /\ SeqToSet(ev.removed) \subseteq SeqToSet(plan.removed)
   /\ UNCHANGED vars /\ UNCHANGED plan /\ Keep
@@ -186,7 +186,7 @@ TRanA ==
         /\ startedSet \subseteq SeqToSet(plan.ran)
         /\ {[c |-> finished[i].c, s |-> finished[i].s] : i \in 1..Len(finished)} \subseteq SeqToSet(plan.status)
         /\ \A c \in startedSet :
-             \A u \in (UNION {Producers(x) : x \in SeqToSet(Cmd(c).ins)}) \cap SeqToSet(plan.ran) :
+             \A u \in (UNION {Producers(x) : x \in SeqToSet(Cmd(c).ins) \cup UNION {SeqToSet(Msa(y)) : y \in SeqToSet(Cmd(c).ins)}}) \cap SeqToSet(plan.ran) :
                 \E j \in 1..Len(ev.seq) : ev.seq[j].c = u /\ ev.seq[j].ev = "F" /\ j < StartedAt(ev.seq, c)
   /\ SeqToSet(ev.removed) \subseteq SeqToSet(plan.removed)
   /\ UNCHANGED vars /\ UNCHANGED plan /\ Keep
